@@ -149,7 +149,14 @@ def run(repo: Repo) -> Result:
             res.add("C12-TABLE", f"{L}.PRECEDENCES", f"missing:{b}", f"{b} is a binary operator without a precedence: the Pratt loop treats it as lowest precedence", mod.relpath, prec.lineno)
         if b not in EXPECT_CLASS:
             res.add("C12-TABLE", f"{L}.BINARY_OPERATORS", f"unknown:{b}", f"binary operator {b} has no known expression class", mod.relpath, binops.lineno)
-    pie = repo.func(f"{L}.parse_infix_expression")
+    from ..normalize import NFunc as _NFn
+    from ..normalize import rename_by_definition as _rename_by_definition
+
+    pie0 = repo.func(f"{L}.parse_infix_expression")
+    # locals named after their definitions: the operator token taken from the stream is `token`,
+    # its binding power looked up in PRECEDENCES is `precedence`
+    pie = _NFn(pie0, _rename_by_definition(pie0.node, [(r"^next\(\w+\)$", "token"), (r"^PRECEDENCES(\.get\(|\[)token\.kind", "precedence")]))
+    P_ENV, P_STREAM, P_LEFT = (pie0.params() + ["env", "stream", "left"])[:3]
     # The dispatch operator-token -> expression class, in either of the two forms a maintainer
     # writes it: an `if token.kind == T: return Cls(token, left, <right operand>)` chain, or a
     # module-level table {T: Cls} looked up with token.kind and called once.
@@ -160,10 +167,10 @@ def run(repo: Repo) -> Result:
             isinstance(c, ast.Call)
             and len(c.args) == 3
             and is_name(c.args[0], "token")
-            and is_name(c.args[1], "left")
+            and is_name(c.args[1], P_LEFT)
             and isinstance(c.args[2], ast.Call)
             and callee_name(c.args[2]) == "parse_boolean_primitive"
-            and [text(x) for x in c.args[2].args] == ["env", "stream", "precedence"]
+            and [text(x) for x in c.args[2].args] == [P_ENV, P_STREAM, "precedence"]
         )
 
     for st in pie.node.body:
@@ -233,14 +240,34 @@ def run(repo: Repo) -> Result:
         brk = next((s for s in lp.body if isinstance(s, ast.If) and any(isinstance(x, ast.Break) for x in s.body)), None)
         if brk is not None:
             tests = brk.test.values if isinstance(brk.test, ast.BoolOp) and isinstance(brk.test.op, ast.Or) else [brk.test]
+            pparam = pbp.params()[2] if len(pbp.params()) > 2 else "precedence"
             for t in tests:
-                if isinstance(t, ast.Compare) and len(t.ops) == 1 and isinstance(t.ops[0], ast.Lt) and is_name(t.comparators[0], "precedence") and "PRECEDENCES.get(token.kind" in text(t.left):
-                    ok = True
-                elif isinstance(t, ast.Compare) and is_name(t.comparators[0], "precedence") and "PRECEDENCES" in text(t.left):
-                    res.add("C12-ASSOC", pbp.qual, f"break-on:{type(t.ops[0]).__name__}", "the Pratt loop must break only when the next operator binds strictly less (`<`); with `<=` equal-precedence and/or chains group from the left", pbp.file, t.lineno)
+                if not (isinstance(t, ast.Compare) and len(t.ops) == 1 and isinstance(t.ops[0], (ast.Lt, ast.LtE, ast.Gt, ast.GtE))):
+                    continue
+                # orientation-free reading: (bigger side, smaller side, strict?)
+                if isinstance(t.ops[0], (ast.Gt, ast.GtE)):
+                    big, small = t.left, t.comparators[0]
+                else:
+                    big, small = t.comparators[0], t.left
+                strict = isinstance(t.ops[0], (ast.Gt, ast.Lt))
+                def is_next_prec(e):
+                    return "PRECEDENCES.get(" in text(e) and ".kind" in text(e)
+
+                if is_name(big, pparam) and is_next_prec(small):
+                    if strict:
+                        ok = True  # break when the next operator binds strictly less
+                    else:
+                        res.add("C12-ASSOC", pbp.qual, "break-on:LtE", "the Pratt loop must break only when the next operator binds strictly less (`<`); with `<=` equal-precedence and/or chains group from the left", pbp.file, t.lineno)
+                        ok = True
+                elif is_name(small, pparam) and is_next_prec(big):
+                    res.add("C12-ASSOC", pbp.qual, "break-on:Gt", "the Pratt loop breaks when the next operator binds MORE than the current one: the comparison is the wrong way round", pbp.file, t.lineno)
                     ok = True
         calls_infix = [c for c in calls(lp) if callee_name(c) == "parse_infix_expression"]
-        if len(calls_infix) != 1 or [text(x) for x in calls_infix[0].args] != ["env", "tokens", "left"]:
+        folds = False
+        if len(calls_infix) == 1 and len(calls_infix[0].args) == 3 and [text(x) for x in calls_infix[0].args[:2]] == pbp.params()[:2] and isinstance(calls_infix[0].args[2], ast.Name):
+            acc = calls_infix[0].args[2].id
+            folds = any(isinstance(st_, ast.Assign) and len(st_.targets) == 1 and is_name(st_.targets[0], acc) and st_.value is calls_infix[0] for st_ in ast.walk(lp))
+        if not folds:
             res.add("C12-ASSOC", pbp.qual, "infix-call", "the Pratt loop must fold with left = parse_infix_expression(env, tokens, left)", pbp.file, lp.lineno)
     if not ok:
         res.add("C12-ASSOC", pbp.qual, "pratt-break", "parse_boolean_primitive: Pratt loop with `PRECEDENCES.get(kind, LOWEST) < precedence -> break` not found", pbp.file, pbp.line)
@@ -333,22 +360,37 @@ def run(repo: Repo) -> Result:
     if n_tests < 8:
         raise AnchorMissing(f"only {n_tests} condition tests found in nodes/expressions")
     # the Boolean fields are filled from BooleanExpression.parse
+    # (read at the construction site: the argument bound to the field's __init__ parameter is a
+    #  BooleanExpression.parse(...) call or a local bound only from such calls — whatever the
+    #  local is called)
+    from ..astutil import bind_args as _bind_args
+
+    def from_boolean_parse(fn_node, e) -> bool:
+        if isinstance(e, ast.Call) and text(e.func) == "BooleanExpression.parse":
+            return True
+        if isinstance(e, ast.Name):
+            binds = [st.value for st in ast.walk(fn_node) if isinstance(st, ast.Assign) and len(st.targets) == 1 and is_name(st.targets[0], e.id)]
+            binds += [st.value for st in ast.walk(fn_node) if isinstance(st, ast.AnnAssign) and is_name(st.target, e.id) and st.value is not None]
+            return bool(binds) and all(isinstance(b, ast.Call) and text(b.func) == "BooleanExpression.parse" for b in binds)
+        return False
+
     for (cq, fld), site in BOOL_FIELDS.items():
-        if site is None:
-            # ConditionalBlockNode(alt_tok, expression=expr, block=...) in if/unless parse
-            for pq in ("liquid.builtin.tags.if_tag.IfTag.parse", "liquid.builtin.tags.unless_tag.UnlessTag.parse"):
-                f = repo.func(pq)
-                res.ob(f"bool-field:{cq}.{fld}@{pq}")
-                src = text(f.node)
-                if "ConditionalBlockNode(alt_tok, expression=expr, block=alt_block)" not in src or "expr = BooleanExpression.parse(" not in src:
-                    res.add("C12-TRUTHY", pq, "elsif-not-boolean", f"{pq}: elsif conditions must be parsed with BooleanExpression.parse", f.file, f.line)
-            continue
-        fq, var = site
-        f = repo.func(fq)
-        res.ob(f"bool-field:{cq}.{fld}")
-        binds = [st for st in walk_no_nested(f.node) if isinstance(st, ast.Assign) and is_name(st.targets[0], var)]
-        if not binds or not all(isinstance(b.value, ast.Call) and text(b.value.func) == "BooleanExpression.parse" for b in binds):
-            res.add("C12-TRUTHY", fq, f"{var}-not-boolean", f"{fq}: `{var}` must come from BooleanExpression.parse (it is tested with Python truthiness at render time)", f.file, f.line)
+        cls_ = repo.cls(cq)
+        init_ = repo.find_method(cls_, "__init__")
+        sites = [site[0]] if site is not None else ["liquid.builtin.tags.if_tag.IfTag.parse", "liquid.builtin.tags.unless_tag.UnlessTag.parse"]
+        for fq in sites:
+            f = repo.func(fq)
+            res.ob(f"bool-field:{cq}.{fld}@{fq}")
+            names = {cls_.name} | ({"self.node_class", "cls"} if site is not None else set())
+            ctor = [c for c in calls(f.node) if text(c.func) in names]
+            vals = []
+            for c in ctor:
+                b = _bind_args(c, init_.node) if init_ is not None else None
+                if b is not None and fld in b:
+                    vals.append(b[fld])
+            kind_ = "elsif-not-boolean" if site is None else "condition-not-boolean"
+            if not vals or not all(from_boolean_parse(f.node, v) for v in vals):
+                res.add("C12-TRUTHY", fq, kind_, f"{fq}: the `{fld}` of {cls_.name} must come from BooleanExpression.parse (it is tested with Python truthiness at render time)", f.file, f.line)
 
     # ---- C12-TYPEERR ---------------------------------------------------------------
     lt = repo.func(f"{L}._lt")
